@@ -1,6 +1,7 @@
 package world
 
 import (
+	"crypto/rsa"
 	"encoding/base64"
 	"fmt"
 	"net/url"
@@ -42,6 +43,11 @@ type Oracle struct {
 	skeletons map[string]string
 	// corrupted: value produced by a storage fault -> how it was derived
 	corrupted map[string]string
+	certs     map[string]*rsa.PublicKey
+	// tag of the step being executed ("twin:<k>" / "hostile:<k>"), the hostile string it carries, hop counter
+	tag     string
+	hostile string
+	tagHop  int
 }
 
 type flowRec struct {
